@@ -224,6 +224,41 @@ def check(ctx):
         ctx.violation('C15.R3', BER, skt, Model.qual(skt), 'a prefix that ends right after the identifier octets is no longer reported as out of data', stmt='offset >= len(data) test')
     ctx.floor('C15.R3', 4)
 
+    # ---- R6: a content decoder is handed the whole input buffer with (offset, length); whatever it (or a helper it passes the buffer to)
+    #      slices out of that buffer must end at an explicit upper bound -- `buffer[x:]` takes the octets of whatever follows the value too
+    ctx.rule('C15.R6', 'content decoders never take an open-ended slice of the whole input buffer')
+    n6 = 0
+    bm = model.mod(BER)
+    dm_ = model.mod('asn1tools/codecs/der.py')
+    for m_ in (bm, dm_):
+        for c_ in m_.classes.values():
+            for mn in ('decode_content', 'decode_primitive_contents', 'decode_constructed_contents', 'decode'):
+                f_ = c_.methods.get(mn)
+                if f_ is None:
+                    continue
+                pn = flow.param_names(f_)
+                if len(pn) < 3 or pn[0] != 'self':
+                    continue
+                buf = pn[1]
+                fam = [(f_, buf)] + [(g_, p_) for g_, p_, _c in excmap.buffer_helpers(f_, buf, depth=3)]
+                for g_, b_ in fam:
+                    for n_ in walk_no_nested(g_):
+                        if isinstance(n_, ast.Subscript) and isinstance(n_.slice, ast.Slice) and isinstance(n_.value, ast.Name) and n_.value.id == b_:
+                            n6 += 1
+                            # the parameter may have been re-bound to a bounded slice of itself first
+                            rebound = any(isinstance(a_, ast.Assign) and any(isinstance(t_, ast.Name) and t_.id == b_ for t_ in a_.targets)
+                                          and isinstance(a_.value, ast.Subscript) and isinstance(a_.value.slice, ast.Slice) and a_.value.slice.upper is not None
+                                          and a_.lineno < n_.lineno for a_ in walk_no_nested(g_))
+                            ok = n_.slice.upper is not None or rebound
+                            ctx.instance('C15.R6', '%s (buffer of %s.%s): %s' % (Model.qual(g_), c_.name, mn, ast.unparse(n_)), 'bounded' if ok else 'VIOLATION', node=n_, file=g_._mod.rel)
+                            if not ok:
+                                ctx.violation('C15.R6', g_._mod.rel, n_, Model.qual(g_),
+                                              '%s is an open-ended slice of the whole input buffer (handed down from %s.%s): the octets that follow this value in the buffer become part '
+                                              'of it, so decode_with_length() of a message followed by more data no longer returns the value decode() gives for the message alone'
+                                              % (ast.unparse(n_), c_.name, mn), stmt=norm_stmt(Model.enclosing_stmt(n_)))
+    if n6 < 10:
+        raise AnalysisError('C15.R6 examined only %d buffer slices' % n6)
+
     # ---- R4
     et = model.func(BER, 'encode_tag')
     st = skt
@@ -437,3 +472,10 @@ REFACTORS = [
 
     return offset + length"""),
 ]
+
+MUTANTS.append(dict(name='REAL contents decoded in place from the whole buffer with an open-ended mantissa slice', file=BER,
+                    old="""        end_offset = offset + length
+        decoded = decode_real(data[offset:end_offset])
+""", new="""        end_offset = offset + length
+        decoded = decode_real_binary(data[offset], data) if length and data[offset] & 0x80 else decode_real(data[offset:end_offset])
+""", expect='C15.R6'))
